@@ -15,6 +15,10 @@ recomputes column `i` from column `i - 1`; `send((-1, f))` adds `f` to `Force[:,
 `x_i` and `S f` to `r_i` for the `i` of the last send.  The arrays `d, v, Force` are shared
 with the caller; `finalize` computes the acceleration column by column from them.
 
+Companion models: `GenMachineInit.lean` (what happens before the first `send` and in `finalize`),
+`GenMachineInst.lean` (the real-uncoupled, SolveExp2 and complex generators statement by
+statement), `GenMachineApi.lean` (call sequences on one solver object).
+
 Three layers:
   * `step`/`run`        the abstract machine over any types with `+` (arrays are `Nat → _`);
   * `stepApi`/`runApi`  what the Python code does with *any* request on an `nt`-column array
